@@ -11,6 +11,7 @@ pub mod c32_attributes;
 pub mod c33_swarm;
 pub mod c35_client;
 pub mod c36_acks;
+pub mod c38_locks;
 pub mod nm_family;
 pub mod sess_family;
 pub mod subs_family;
@@ -39,5 +40,6 @@ pub fn all() -> Vec<Box<dyn Scenario>> {
     v.push(Box::new(c33_swarm::C33));
     v.push(Box::new(c35_client::C35));
     v.push(Box::new(c36_acks::C36));
+    v.push(Box::new(c38_locks::C38));
     v
 }
